@@ -295,7 +295,15 @@ pub fn run(a: &Args) -> Value {
     let mut samples = Vec::new();
     let mut inconclusive: Option<String> = None;
     let mut k = a.shard;
+    let max_seconds: u64 = a.map.get("max-seconds").and_then(|s| s.parse().ok()).unwrap_or(240);
+    let started = std::time::Instant::now();
+    let mut cut_short = false;
     while k < a.count {
+        if started.elapsed().as_secs() > max_seconds {
+            // real seconds are spent only when the client sits out timeouts: stop generating, say so
+            cut_short = true;
+            break;
+        }
         k += a.nshards;
         let long_now = long_n > 0;
         let (t_start, script) = if long_now { gen_long_script(long_n) } else { gen_script(&mut rng, with_silent, with_slow) };
@@ -341,7 +349,8 @@ pub fn run(a: &Args) -> Value {
             run_poller_real(ctx, phc, Duration::from_millis(1));
         });
         // Watchdog in real time: 5 s per silent step, 2 s otherwise.
-        let budget = script.iter().map(|(_, a, _)| if *a == Action::Silent { 5 } else if matches!(a, Action::SlowAnswer(_)) { 6 } else { 2 }).sum::<u64>() + 5;
+        // (a client may also sit out its three one-second timeouts on a reply it cannot use)
+        let budget = script.iter().map(|(_, a, _)| match a { Action::Silent | Action::BadSeq | Action::Truncated(_) | Action::BadVersion | Action::WrongReply => 5, Action::SlowAnswer(_) => 6, _ => 2 }).sum::<u64>() + 5;
         let (tx, rx) = std::sync::mpsc::channel();
         std::thread::spawn(move || {
             let _ = h.join();
@@ -421,6 +430,7 @@ pub fn run(a: &Args) -> Value {
     let _ = srv.join();
     clock::uninstall();
     let mut v = json!({"phc_short_reads_injected": vworld::meter::SHORT_READS_INJECTED.load(Ordering::Relaxed), "phc_read_failures_injected": vworld::meter::READ_FAILURES_INJECTED.load(Ordering::Relaxed), "evaluations": evaluations, "distinct": distinct.len(), "steps": steps, "kinds": kinds, "threshold_edges": edges, "coarse_reads": sh.coarse_reads.load(Ordering::SeqCst), "violations": violations, "samples": samples});
+    v["stopped_early_after_seconds"] = json!(if cut_short { max_seconds } else { 0 });
     if let Some(e) = inconclusive {
         v["inconclusive"] = json!(e);
     }
